@@ -391,7 +391,11 @@ def vhash(v):
         elif isinstance(t, (onp.ndarray, onp.generic)):
             a = onp.asarray(t)
             h.update(str(a.dtype).encode() + str(a.shape).encode())
-            h.update(onp.ascontiguousarray(a).tobytes())
+            if a.dtype.name in ("float128", "complex256", "longdouble", "clongdouble") or a.dtype.itemsize in (16, 32) and a.dtype.kind in "fc" and a.dtype.name not in ("complex128",):
+                # extended precision carries uninitialised padding bytes: hash the values, not the bytes
+                h.update(repr(a.ravel().tolist()).encode())
+            else:
+                h.update(onp.ascontiguousarray(a).tobytes())
         else:
             h.update(repr((type(t).__name__, t)).encode())
 
